@@ -1,0 +1,6 @@
+//go:build !verif
+
+package fsnotify
+
+func verifPoint(string, int) {}
+func verifSend(*shared)      {}
